@@ -4,6 +4,8 @@
 #include <ascon/siv.h>
 #include <ascon/isap.h>
 #include "cpp_session.h"
+#include <ascon/utility.h>
+#include <string.h>
 
 extern "C" void *cpps_new(int family, int alg)
 {
@@ -24,3 +26,20 @@ extern "C" int cpps_encrypt(void *h, unsigned char *c, const unsigned char *m, s
 extern "C" int cpps_decrypt(void *h, unsigned char *m, const unsigned char *c, size_t len, const unsigned char *ad, size_t adlen)
 { return static_cast<ascon::aead *>(h)->decrypt(m, c, len, ad, adlen); }
 extern "C" size_t cpps_key_size(void *h) { return static_cast<ascon::aead *>(h)->key_size(); }
+
+/* the byte_array overloads: form 1 = two-argument overload when there is no associated data, form 2 = always the three-argument overload (with an empty array) */
+extern "C" int cpps_encrypt_ba(void *h, unsigned char *c, const unsigned char *m, size_t len, const unsigned char *ad, size_t adlen, int form)
+{
+    ascon::aead *o = static_cast<ascon::aead *>(h); ascon::byte_array bm = ascon::bytes_from_data(m, len), bad = ascon::bytes_from_data(ad, adlen), bc;
+    if (adlen == 0 && form == 1) o->encrypt(bc, bm); else o->encrypt(bc, bm, bad);
+    if (bc.size()) memcpy(c, bc.data(), bc.size());
+    return (int)bc.size();
+}
+extern "C" int cpps_decrypt_ba(void *h, unsigned char *m, const unsigned char *c, size_t len, const unsigned char *ad, size_t adlen, int form)
+{
+    ascon::aead *o = static_cast<ascon::aead *>(h); ascon::byte_array bc = ascon::bytes_from_data(c, len), bad = ascon::bytes_from_data(ad, adlen), bm;
+    bool ok = (adlen == 0 && form == 1) ? o->decrypt(bm, bc) : o->decrypt(bm, bc, bad);
+    if (!ok) return -1;
+    if (bm.size()) memcpy(m, bm.data(), bm.size());
+    return (int)bm.size();
+}
